@@ -322,6 +322,36 @@ fn get_best_move_score(
     Some(alpha)
 }
 
+/// Verification hook: one call of the windowed search (any depth, any window)
+/// with a fresh killer table, for checking it against an exhaustive search.
+/// Under its own value of the flag, so that the other hooks stay usable if the
+/// signature of the search changes and this one has not been adapted yet.
+#[cfg(daniel729_chess_verif = "window")]
+#[allow(dead_code, clippy::too_many_arguments)]
+pub fn verif_window_search(
+    game: &mut Game,
+    table: &mut TranspositionTable,
+    continue_running: &AtomicBool,
+    remaining_depth: u8,
+    real_depth: u8,
+    alpha: Score,
+    beta: Score,
+    history: &mut [u16; 64 * 12],
+) -> Option<Score> {
+    let mut killer_moves = [None; 256];
+    get_best_move_score(
+        game,
+        table,
+        continue_running,
+        remaining_depth,
+        real_depth,
+        alpha,
+        beta,
+        &mut killer_moves,
+        history,
+    )
+}
+
 /// This function is the entry point for the search algorithm
 /// It returns the best move, the score of the best move
 /// and a flag indicating if there is only one move available
